@@ -115,6 +115,9 @@ func (poc *PolicySorter) OnUpdate(update api.Update) (dirty bool) {
 				poc.sortedTiers.Delete(oldKey)
 				tierInfo.Valid = false
 				tierInfo.Order = nil
+				// The tier resource is gone: forget its default action too, so that what we emit
+				// for policies that still name this tier does not depend on the tier's past.
+				tierInfo.DefaultAction = ""
 				if len(tierInfo.Policies) == 0 {
 					delete(poc.tiers, tierName)
 				} else {
